@@ -610,7 +610,7 @@ def gen_parser_steps():
 
 
 EVENT_PAT = re.compile(
-    r"\b(type_check_rec|unify|normalize_weak_head|open|unsigned_shift|signed_shift|syntactically_equal)\s*\(|"
+    r"\b(type_check_rec|unify|normalize_weak_head|open|unsigned_shift|signed_shift|syntactically_equal|step|is_value)\s*\(|"
     r"\b(typing_context|definitions_context)\s*\.\s*(push|pop|truncate)\s*\(|"
     r"\b(Rc::new\(RefCell::new\(None\)\))|\b(context_cell!|ScopeGuard|scopeguard::guard|defer!)")
 
@@ -638,6 +638,9 @@ def event_trace(abody, self_fn):
                 ev.append(f + " " + " ".join(a.lstrip("&") for a in args))
             elif f == "normalize_weak_head":
                 ev.append("whnf " + (args[0].lstrip("&") if args else "?"))
+            elif f in ("step", "is_value"):
+                neg = abody[max(0, m.start() - 1):m.start()] == "!"
+                ev.append(("not-" if neg else "") + f + " " + (args[0].lstrip("&") if args else "?"))
             else:
                 ev.append(f + " " + " ".join(a.lstrip("&") for a in args[:2]))
         elif m.group(2):
@@ -682,6 +685,30 @@ def gen_event_traces():
            "/-- (function, arm, the calls that matter in textual order: `infer x` = `type_check_rec(.., x, ..)`, `unify a b`, `push T|D` / `pop T|D` on the typing /",
            "definitions context, `open ..`, `unsigned_shift ..`, `fresh-hole`, `whnf x`) -/",
            "def eventTraces : List (String × String × List String) := ["]
+    out.append(",\n".join('  ("%s", "%s", [%s])' % (f, a, ", ".join('"%s"' % e.replace("\\", "\\\\").replace('"', '\\"') for e in ev)) for f, a, ev in rows))
+    out += ["]", "", "end Generated", ""]
+    return "\n".join(out)
+
+
+def gen_eval_traces():
+    """evaluator.rs::step and normalizer.rs::normalize_weak_head, the arms other than the nine binary operators: the calls that
+    matter in textual order (sub-steps, value tests, `open` / shifts with their arguments, recursive normalisations)"""
+    rows = []
+    for fname, path in (("step", "src/evaluator.rs"), ("normalize_weak_head", "src/normalizer.rs")):
+        src = strip_hooks(strip_comments(strip_tests(read(path))))
+        body = fn_body(src, fname)
+        blk = top_match(body, fname)
+        for pat, abody in split_arms(blk, fname):
+            for name, fields in parse_pattern(pat, fname):
+                if name in BINARY: continue
+                ev = event_trace(abody, fname)
+                for i, f in sorted(enumerate(fields), key=lambda p: -len(p[1])):
+                    if f in ("_", ""): continue
+                    ev = [re.sub(r"\b" + re.escape(f) + r"\b", f"${i}", e) for e in ev]
+                rows.append((fname, name, ev))
+    out = ["/-! GENERATED by extract/arms.py from /repo/src/evaluator.rs and normalizer.rs — do not edit. -/", "", "namespace Generated", "",
+           "/-- (function, arm, the calls that matter in textual order; pattern fields written by position) -/",
+           "def evalTraces : List (String × String × List String) := ["]
     out.append(",\n".join('  ("%s", "%s", [%s])' % (f, a, ", ".join('"%s"' % e.replace("\\", "\\\\").replace('"', '\\"') for e in ev)) for f, a, ev in rows))
     out += ["]", "", "end Generated", ""]
     return "\n".join(out)
